@@ -3,7 +3,7 @@
    signature pre-pass, parseProgram's loop and the final validateScope — to the program's tree. *)
 From Coq Require Import List String NArith ZArith Bool Arith Lia.
 From EvyV Require Import Base FmtAst Format FormatProofs Pratt PrattProofs Parser ParserProofs ParserRules ParserScope ParserCursor
-  FormatParse FormatParseProofs FormatParseListProofs FormatParseStmtProofs FormatParseBlockProofs.
+  FormatParse FormatParseProofs FormatParseListProofs FormatParseStmtProofs FormatParseBlockProofs FormatParsePlainProofs.
 From EvyV.Gen Require Import Prec.
 Import ListNotations.
 Local Open Scope nat_scope.
@@ -109,11 +109,10 @@ Section Prog.
 
   Theorem parse_roundtrip p Gout poss eof :
     poks B F G0 false p Gout -> frame_used Gout ->
-    Forall (fun t => ttype t <> T_ILLEGAL /\ ttype t <> T_FUNC) (body_toks fx 0 false p) ->
     List.length poss = List.length (body_toks fx 0 false p) ->
     parse B (combine (body_toks fx 0 false p) poss) eof = Accept (body_trees false p).
   Proof.
-    intros Hp Hu Hlex Hlen. set (toks := body_toks fx 0 false p) in *. set (raw := combine toks poss).
+    intros Hp Hu Hlen. pose proof (poks_plain fx B F G0 false p Gout Hp) as Hlex. unfold plain_tok in Hlex. set (toks := body_toks fx 0 false p) in *. set (raw := combine toks poss).
     assert (Hill : Forall (fun tp : token * position => is_illegal (fst tp) = false) raw).
     { apply Forall_forall. intros [t q] Hin. apply in_combine_l in Hin. cbn [fst].
       rewrite Forall_forall in Hlex. destruct (Hlex t Hin) as [H _]. unfold is_illegal. destruct (ttype t); try reflexivity. contradiction. }
@@ -192,7 +191,6 @@ Section Prog.
   (* the program theorem *)
   Theorem program_roundtrip p Gout poss eof :
     p <> [] -> poks B F G0 false p Gout -> frame_used Gout ->
-    Forall (fun t => ttype t <> T_ILLEGAL /\ ttype t <> T_FUNC) (toks_of_pieces (fmt_prog fx p)) ->
     List.length poss = List.length (toks_of_pieces (fmt_prog fx p)) ->
     parse B (combine (toks_of_pieces (fmt_prog fx p)) poss) eof = Accept (body_trees false p).
   Proof.
